@@ -42,7 +42,7 @@ CLAIMS.update({
         note=_NOTE),
     "C12": dict(
         text="Capability decision tables of ClientSSM.indication / ServerSSM.confirmation / idle / await_confirmation are enumerated over all combinations of own and peer segmentation support, max-segments and segment counts and compared with the standard's outcome (send or the matching abort); "
-             "segment size is bounded by every limit it is derived from; peer limits are taken from the request header and I-Am, a record learned from an I-Am is stored under both cache keys and the state machines acquire it with a key of the kind acquire() accepts; window negotiation is min(proposed, own). Header allowance and window range checks are known findings. Frame lengths for concrete payloads are not claimed.",
+             "segment size is bounded by every limit it is derived from; peer limits are taken from the request header and I-Am, a record learned from an I-Am is stored under both cache keys and the state machines acquire it with a key of the kind acquire() accepts; window negotiation is min(proposed, own) and one burst asks for exactly actualWindowSize consecutive segments (evaluated from the loop, whatever its spelling). Header allowance and window range checks are known findings. Frame lengths for concrete payloads are not claimed.",
         technique="finite-domain guard evaluation over path enumeration (decision-table extraction) + dataflow of limit sources",
         note=_NOTE),
     "C14": dict(
@@ -113,11 +113,11 @@ CLAIMS.update({
         note=_NOTE),
     "C18": dict(
         text="Every store of a network number and every one-octet station pack in pdu.py is shown dominated by its range test (value sets of the guards, with regex-derived sources known non-negative); fields hashed vs fields compared unconditionally, and the hashed octets are an immutable bytes object owned by the address (never the caller's buffer); "
-             "all typed constructors set all five fields; the printer is exhaustive over the six address types; mask/host/subnet/broadcast expressions are evaluated against IPv4 arithmetic for all 33 mask lengths. Print/parse round trips are not claimed.",
+             "all typed constructors set all five fields; Address(net, addr) turns exactly a local station / local broadcast into the remote kind on that network and refuses the rest (values followed on every path of the arm); the printer is exhaustive over the six address types; mask/host/subnet/broadcast expressions are evaluated against IPv4 arithmetic for all 33 mask lengths. Print/parse round trips are not claimed.",
         technique="guard value-sets at every sink + field-set comparison + finite-domain expression evaluation",
         note=_NOTE),
     "C19": dict(
-        text="Scope resolution of every function of the package (no unbound global reads); the router map and path index are updated together on every loop path of the mutators and a router record disappears only when empty; every path-index key uses the network the router map is indexed by in that call and a path is dropped only for a destination the edited router owns; displacement precedes adoption; renumbering re-keys both indexes; the two learning sites pass (arrival network, link source, networks). Coherence after arbitrary histories is not claimed.",
+        text="Scope resolution of every function of the package (no unbound global reads); the router map and path index are updated together on every loop path of the mutators, a new record is entered under the keys the map is read with (source network, router address), and a router record disappears only when empty; every path-index key uses the network the router map is indexed by in that call and a path is dropped only for a destination the edited router owns; displacement precedes adoption; renumbering re-keys both indexes; the two learning sites pass (arrival network, link source, networks). Coherence after arbitrary histories is not claimed.",
         technique="symtable scope resolution + paired-update path rules",
         note=_NOTE),
     "C20": dict(
